@@ -25,7 +25,7 @@ Definition bary_support (p1_support : list nat) (b : nat) : bool := mem (b / 6) 
 Definition dual0_face_entries (truncate : bool) (p1_support : list nat) (d : nat) (fv : nat * nat)
   : option (list triple) :=
   let '(face, vertex) := fv in
-  if bary_support p1_support face || negb truncate then
+  if (if dual0_guard_uses_coarse_support then mem face p1_support else bary_support p1_support face) || negb truncate then
     match index_of face p1_support with
     | Some face_n => Some (map (fun s => ((6 * face_n + s)%nat, d, 1)) (nth vertex dual0_subtris []))
     | None => None                                        (* KeyError in support_numbers[face] *)
